@@ -104,7 +104,8 @@ def packet(rng, kind, total, ver=1, err_free=True):
     else:
         mt, pt = KIND_TYPE[kind]
         pl = typed_payload(rng, kind, total)
-    fl = rng.choice([0, 0, 1, 2, 3, 0x10, 0x20, 0x33, 0x80, 0xB3])
+    # any common flags without the error-in-payload bit: also with bits of the segmentation field set
+    fl = rng.choice([0, 0, 1, 2, 3, 0x10, 0x20, 0x33, 0x80, 0xB3, 0x04, 0x08, 0x0C, 0xBF])
     return {'mt': mt, 'pt': pt, 'ver': ver, 'ts': rbytes(rng, 8), 'ifid': rbytes(rng, 4),
             'vid': rng.randrange(65536), 'fl': fl, 'pl': pl}
 
